@@ -34,7 +34,17 @@ func main() {
 		}
 		return
 	}
+	if len(os.Args) > 3 && os.Args[3] == "inl" {
+		for _, g := range p.Funcs() {
+			ok, size, why := eng.InlineDecision(g.Obj)
+			fmt.Printf("  %-5v %4d %-40s %s\n", ok, size, why, g.Obj.FullName())
+		}
+		return
+	}
 	fn := eng.FnOf(fi)
+	for _, g := range fn.Expanded() {
+		fmt.Println("expanded:", g.Obj.FullName())
+	}
 	t = time.Now()
 	an := fn.Analyze(nil)
 	fmt.Println("analysis", time.Since(t))
